@@ -1,10 +1,333 @@
 package main
 
-import "verifharness/rig"
+import (
+	"context"
+	"fmt"
+	"net"
+	"net/http"
+	"net/http/httptest"
+	"strings"
+	"sync"
+	"time"
+
+	metav1 "k8s.io/apimachinery/pkg/apis/meta/v1"
+	"k8s.io/apiserver/pkg/authentication/user"
+	genericapirequest "k8s.io/apiserver/pkg/endpoints/request"
+
+	proxyv1alpha1 "github.com/kubewharf/kubegateway/pkg/apis/proxy/v1alpha1"
+	"github.com/kubewharf/kubegateway/pkg/clusters"
+	gatewayrequest "github.com/kubewharf/kubegateway/pkg/gateway/endpoints/request"
+	proxydispatcher "github.com/kubewharf/kubegateway/pkg/gateway/proxy/dispatcher"
+
+	"verifharness/rig"
+)
+
+// ---------------------------------------------------------------------------------------------------
+// (c) one request through the real dispatcher.ServeHTTP, every way out; the limiter is the real
+// max-in-flight limiter of a real ClusterInfo and is observed only through its public behaviour:
+// how many further requests it admits.
 
 type ServeCase struct {
-	Kind string `json:"kind"`
+	Kind  string `json:"kind"`  // "serve"
+	Way   string `json:"way"`   // ok | upstream-error | no-endpoint | client-abort | panic | refused | no-match
+	Limit int    `json:"limit"` // the schema's max-in-flight limit (1..4)
+	Held  int    `json:"held"`  // slots taken by other requests before this one arrives
 }
 
-func runServe(c *rig.Ctx, s ServeCase, record bool) bool { return true }
-func genServe(c *rig.Ctx)                                 {}
+const serveSchema = "fc"
+
+type serveObs struct {
+	status     int
+	panicked   bool
+	duringFree int // slots free while the upstream was handling the request (-1: upstream never reached)
+	afterFree  int // slots free after ServeHTTP returned
+	err        string
+}
+
+// freeSlots counts how many further requests the limiter admits right now (and gives them back).
+func freeSlots(ci *clusters.ClusterInfo, cap int) int {
+	fc := ci.GetFlowSchema(serveSchema)
+	n := 0
+	for i := 0; i < cap+2; i++ {
+		if !fc.TryAcquire() {
+			break
+		}
+		n++
+	}
+	for i := 0; i < n; i++ {
+		fc.Release()
+	}
+	return n
+}
+
+func alwaysReady(e *clusters.EndpointInfo) bool {
+	if !e.IsReady() {
+		e.UpdateStatus(true, "", "")
+	}
+	return false
+}
+
+func neverReady(e *clusters.EndpointInfo) bool {
+	e.UpdateStatus(false, "Scripted", "never ready")
+	return false
+}
+
+type panickyWriter struct {
+	h http.Header
+}
+
+// Header panics: the reverse proxy's own recover() handler calls it again, so the panic leaves
+// proxyHandler.ServeHTTP and unwinds dispatcher.ServeHTTP (its deferred calls must still run).
+func (p *panickyWriter) Header() http.Header { panic("verif: response writer panics") }
+func (p *panickyWriter) WriteHeader(int)     {}
+func (p *panickyWriter) Write(b []byte) (int, error) {
+	panic("verif: response writer panics")
+}
+
+func runImplServe(s ServeCase) (obs serveObs) {
+	obs.duringFree = -1
+	var ci *clusters.ClusterInfo
+	var once sync.Once
+	arrived := make(chan struct{})
+	finish := make(chan struct{})
+	up := httptest.NewServer(http.HandlerFunc(func(w http.ResponseWriter, r *http.Request) {
+		once.Do(func() {
+			obs.duringFree = freeSlots(ci, s.Limit)
+			close(arrived)
+		})
+		switch s.Way {
+		case "upstream-error":
+			if hj, ok := w.(http.Hijacker); ok {
+				if conn, _, err := hj.Hijack(); err == nil {
+					conn.Close()
+					return
+				}
+			}
+		case "client-abort":
+			select {
+			case <-finish:
+			case <-time.After(20 * time.Second):
+			}
+			return
+		}
+		w.Header().Set("Content-Type", "application/json")
+		w.WriteHeader(200)
+		w.Write([]byte(strings.Repeat("{\"kind\":\"PodList\"}\n", 64)))
+	}))
+	defer up.Close()
+	defer close(finish)
+
+	uc := &proxyv1alpha1.UpstreamCluster{ObjectMeta: metav1.ObjectMeta{Name: "c.local"}}
+	uc.Spec.Servers = []proxyv1alpha1.UpstreamClusterServer{{Endpoint: up.URL}}
+	uc.Spec.ClientConfig.BearerToken = []byte("gateway-token")
+	rule := proxyv1alpha1.DispatchPolicyRule{Verbs: []string{"*"}, APIGroups: []string{"*"}, Resources: []string{"*"}, NonResourceURLs: []string{"*"}}
+	if s.Way == "no-match" {
+		rule = proxyv1alpha1.DispatchPolicyRule{Verbs: []string{"delete"}, APIGroups: []string{"apps"}, Resources: []string{"deployments"}}
+	}
+	uc.Spec.DispatchPolicies = []proxyv1alpha1.DispatchPolicy{{Rules: []proxyv1alpha1.DispatchPolicyRule{rule}, FlowControlSchemaName: serveSchema}}
+	uc.Spec.FlowControl = proxyv1alpha1.FlowControl{Schemas: []proxyv1alpha1.FlowControlSchema{{Name: serveSchema,
+		FlowControlSchemaConfiguration: proxyv1alpha1.FlowControlSchemaConfiguration{
+			MaxRequestsInflight: &proxyv1alpha1.MaxRequestsInflightFlowControlSchema{Max: int32(s.Limit)}}}}}
+	health := alwaysReady
+	if s.Way == "no-endpoint" {
+		health = neverReady
+	}
+	var err error
+	ci, err = clusters.CreateClusterInfo(uc, health, "", nil)
+	if err != nil {
+		obs.err = "CreateClusterInfo: " + err.Error()
+		return
+	}
+	defer ci.Stop()
+	deadline := time.Now().Add(10 * time.Second)
+	for {
+		ep, ok := ci.Endpoints.Load(up.URL)
+		if ok && ((s.Way != "no-endpoint" && ep.IsReady()) || (s.Way == "no-endpoint" && strings.Contains(ep.UnreadyReason(), "Scripted"))) {
+			break
+		}
+		if time.Now().After(deadline) {
+			obs.err = "endpoint never reached the scripted readiness"
+			return
+		}
+		time.Sleep(2 * time.Millisecond)
+	}
+	manager := clusters.NewManager()
+	manager.Add(ci)
+	h := proxydispatcher.NewDispatcher(manager, false)
+
+	// other requests in flight
+	fc := ci.GetFlowSchema(serveSchema)
+	held := 0
+	for i := 0; i < s.Held; i++ {
+		if fc.TryAcquire() {
+			held++
+		}
+	}
+	if held != s.Held {
+		obs.err = fmt.Sprintf("could only pre-admit %d of %d requests at limit %d", held, s.Held, s.Limit)
+		return
+	}
+
+	ctx, cancel := context.WithCancel(context.Background())
+	defer cancel()
+	ctx = genericapirequest.WithUser(ctx, &user.DefaultInfo{Name: "alice", Groups: []string{"system:authenticated"}})
+	ctx = genericapirequest.WithRequestInfo(ctx, &genericapirequest.RequestInfo{IsResourceRequest: true, Path: "/api/v1/namespaces/default/pods",
+		Verb: "list", APIPrefix: "api", APIVersion: "v1", Namespace: "default", Resource: "pods", Parts: []string{"pods"}})
+	ctx = gatewayrequest.WithExtraRequestInfo(ctx, &gatewayrequest.ExtraRequestInfo{Scheme: "https", Hostname: "c.local", UpstreamCluster: ci, IsProxyRequest: true})
+	ctx = gatewayrequest.WithProxyInfo(ctx, gatewayrequest.NewProxyInfo())
+	req := httptest.NewRequest("GET", "https://c.local/api/v1/namespaces/default/pods", nil).WithContext(ctx)
+	req.RemoteAddr = net.JoinHostPort("127.0.0.1", "40000")
+
+	var w http.ResponseWriter
+	rec := httptest.NewRecorder()
+	w = rec
+	if s.Way == "panic" {
+		w = &panickyWriter{h: http.Header{}}
+	}
+	done := make(chan struct{})
+	go func() {
+		defer close(done)
+		_, obs.panicked = rig.Recover(func() { h.ServeHTTP(w, req) })
+	}()
+	if s.Way == "client-abort" {
+		select {
+		case <-arrived:
+		case <-time.After(10 * time.Second):
+			obs.err = "the upstream never saw the request"
+		}
+		cancel() // the client goes away
+	}
+	select {
+	case <-done:
+	case <-time.After(30 * time.Second):
+		obs.err = "dispatcher.ServeHTTP did not return within 30 s"
+		return
+	}
+	obs.status = rec.Code
+	obs.afterFree = freeSlots(ci, s.Limit)
+	for i := 0; i < held; i++ {
+		fc.Release()
+	}
+	return
+}
+
+func runServe(c *rig.Ctx, s ServeCase, record bool) bool {
+	fail := func(kind, class, what string, impl, model interface{}) bool {
+		if record {
+			c.Fail(rig.Failure{Kind: kind, Class: class, What: what, Case: s, Impl: impl, Model: model})
+		}
+		return false
+	}
+	if s.Limit < 1 || s.Held < 0 || s.Held > s.Limit || (s.Way == "refused") != (s.Held == s.Limit) {
+		return true // not a meaningful scenario
+	}
+	obs := runImplServe(s)
+	impl := map[string]interface{}{"status": obs.status, "panicked": obs.panicked, "free_during": obs.duringFree, "free_after": obs.afterFree}
+	if obs.err != "" {
+		return fail("diff", "c05.serve-rig", "the dispatcher rig could not run: "+obs.err, impl, nil)
+	}
+	free := s.Limit - s.Held
+	// judge: the slot is back exactly once, whatever the way out
+	if obs.afterFree != free {
+		what := fmt.Sprintf("way out %q: %d slots were free before the request, %d after it ended", s.Way, free, obs.afterFree)
+		if obs.afterFree < free {
+			return fail("judge", "c05.serve-slot-leaked", what+" (the slot was not given back)", impl, nil)
+		}
+		return fail("judge", "c05.serve-slot-returned-twice", what+" (a slot was given back that this request did not hold)", impl, nil)
+	}
+	reached := obs.duringFree >= 0
+	switch s.Way {
+	case "ok", "upstream-error", "client-abort", "panic":
+		if !reached {
+			return fail("diff", "c05.serve-rig", fmt.Sprintf("way out %q: the upstream was never reached (status %d)", s.Way, obs.status), impl, nil)
+		}
+		// judge: while the upstream handles it, the request occupies a slot
+		if obs.duringFree != free-1 {
+			return fail("judge", "c05.serve-not-counted", fmt.Sprintf("way out %q: %d slots free while the request was being proxied, expected %d (the request does not occupy its slot for its whole duration)", s.Way, obs.duringFree, free-1), impl, nil)
+		}
+	default:
+		if reached {
+			return fail("diff", "c05.serve-rig", fmt.Sprintf("way out %q: the upstream was reached", s.Way), impl, nil)
+		}
+	}
+	wantStatus := map[string]int{"ok": 200, "upstream-error": 502, "no-endpoint": 503, "refused": 429, "no-match": 500}
+	if ws, ok := wantStatus[s.Way]; ok && obs.status != ws && !(s.Way == "upstream-error" && obs.status >= 500) {
+		return fail("diff", "c05.serve-status", fmt.Sprintf("way out %q answered %d, expected %d", s.Way, obs.status, ws), impl, nil)
+	}
+	if (s.Way == "panic") != obs.panicked {
+		return fail("diff", "c05.serve-status", fmt.Sprintf("way out %q: panicked=%v", s.Way, obs.panicked), impl, nil)
+	}
+	// the abstracted ServeHTTP (regenerated program) on the same scenario
+	var m struct {
+		Acquired int      `json:"acquired"`
+		Released int      `json:"released"`
+		Tried    int      `json:"tried"`
+		Program  []string `json:"program"`
+		ShapeOk  bool     `json:"shapeOk"`
+	}
+	if err := c.Model("C05.serve", map[string]interface{}{"choices": []string{}, "granted": true}, &m); err != nil {
+		return true
+	}
+	acq := -1
+	for i, st := range m.Program {
+		if st == "acquireGuard" {
+			acq = i
+		}
+	}
+	if acq < 0 {
+		return fail("diff", "c05.serve-shape", "the regenerated ServeHTTP has no acquire guard", impl, m.Program)
+	}
+	choices := make([]string, len(m.Program))
+	for i := range choices {
+		choices[i] = "go"
+	}
+	granted := true
+	switch s.Way {
+	case "refused":
+		granted = false
+	case "no-match":
+		for i := acq - 1; i >= 0; i-- {
+			if m.Program[i] == "guard" {
+				choices[i] = "exit"
+				break
+			}
+		}
+	case "no-endpoint":
+		for i := acq + 1; i < len(m.Program); i++ {
+			if m.Program[i] == "guard" {
+				choices[i] = "exit"
+				break
+			}
+		}
+	case "panic":
+		choices[len(choices)-1] = "panic"
+	}
+	if err := c.Model("C05.serve", map[string]interface{}{"choices": choices, "granted": granted}, &m); err != nil {
+		return fail("diff", "c05.model-error", "model error: "+err.Error(), impl, nil)
+	}
+	implAcq := 0
+	if reached || s.Way == "no-endpoint" {
+		implAcq = 1
+	}
+	implRel := implAcq - (free - obs.afterFree)
+	if m.Acquired != implAcq || m.Released != implRel {
+		return fail("diff", "c05.serve-model", fmt.Sprintf("way out %q: model acquired=%d released=%d, code acquired=%d released=%d", s.Way, m.Acquired, m.Released, implAcq, implRel), impl, m)
+	}
+	return true
+}
+
+var serveWays = []string{"ok", "upstream-error", "no-endpoint", "client-abort", "panic", "refused", "no-match"}
+
+func genServe(c *rig.Ctx) {
+	n := c.Budget(42, 700)
+	for i := 0; i < n && c.NFailures() < 5; i++ {
+		s := ServeCase{Kind: "serve", Way: serveWays[i%len(serveWays)], Limit: 1 + c.Rng.Intn(4)}
+		s.Held = c.Rng.Intn(s.Limit)
+		if s.Way == "refused" {
+			s.Held = s.Limit
+		}
+		c.Case(rig.Canon(s), true, "serve:"+s.Way, func() interface{} { return s })
+		c.Trace()
+		runServe(c, s, true)
+	}
+}
